@@ -534,6 +534,30 @@ func init() {
 			return done(Ptr{Obj: o})
 		},
 
+		// wall-clock reads on the virtual clock: a Time with the monotonic flag set and ext = virtual
+		// nanoseconds; Sub/Add/Before/After/Equal of package time then run themselves (pure code on
+		// wall/ext). The wall-clock date of such a value is meaningless (never asked for here).
+		"time.Now": func(e *Exec, t *Thread, a []Value, g bool) (Value, bool) {
+			tt := e.World.Pkgs["time"].Type("Time").Type()
+			st := e.zero(tt).(*Struct)
+			st.F[0] = e.C.BVConst(64, 1<<63)
+			st.F[1] = e.nowT()
+			return done(st)
+		},
+		"time.Since": func(e *Exec, t *Thread, a []Value, g bool) (Value, bool) {
+			st := a[0].(*Struct)
+			if w := st.F[0].(*term.T); !w.IsConst() || w.Val>>63 == 0 {
+				e.unsupported("time.Since of a Time that does not come from time.Now")
+			}
+			return done(e.C.Bin(term.OpSub, e.nowT(), st.F[1].(*term.T)))
+		},
+		"time.Until": func(e *Exec, t *Thread, a []Value, g bool) (Value, bool) {
+			st := a[0].(*Struct)
+			if w := st.F[0].(*term.T); !w.IsConst() || w.Val>>63 == 0 {
+				e.unsupported("time.Until of a Time that does not come from time.Now")
+			}
+			return done(e.C.Bin(term.OpSub, st.F[1].(*term.T), e.nowT()))
+		},
 		"time.Date": func(e *Exec, t *Thread, a []Value, g bool) (Value, bool) {
 			c := e.C
 			for _, z := range a[3:7] {
